@@ -42,7 +42,7 @@ def run(tier, seed, replay=None):
     nv = 120 if tier == "quick" else 2000
     jc = [drv.gen_jobshop(rng) for _ in range(nj)]
     vc = [drv.gen_vrp(rng, "solve") for _ in range(nv)] + [drv.gen_vrp(rng, "sequence") for _ in range(nv)]
-    trs = _fix(run_tasks("c18", "run_jobshop", jc, timeout=60), jc, "jobshop") + _fix(run_tasks("c18", "run_vrp", vc, timeout=120), vc, "vrp")
+    trs = _fix(run_tasks("c18", "run_jobshop", jc, timeout=120), jc, "jobshop") + _fix(run_tasks("c18", "run_vrp", vc, timeout=120), vc, "vrp")
     vs = ck.validate(DIR, "C18Trace", trs, "job-shop results; VRP operator applications and solve_vrptw results", timeout=3000, chunk=30)
     ck.classify(trs, vs, nontrivial=lambda t, v: len(t["events"]) >= 2)
     for t in trs:
